@@ -29,6 +29,8 @@ type Document struct {
 	styleManager *style.StyleManager
 	// 临时存储文档部件
 	parts map[string][]byte
+	// word/styles.xml 由本库根据样式管理器生成（而非来自打开的文档包）：每次保存时重新生成
+	stylesGenerated bool
 	// 图片ID计数器，确保每个图片都有唯一的ID
 	nextImageID int
 	// 脚注/尾注管理器（每个文档独立，按需创建）
@@ -2996,7 +2998,9 @@ func (d *Document) serializeStyles() error {
 
 	// 如果在克隆文档时已经保留了完整的 styles.xml（含 docDefaults 等信息），
 	// 这里直接跳过重新生成，避免丢失模板原有的默认段落/字符设置。
-	if existing, ok := d.parts["word/styles.xml"]; ok && len(existing) > 0 {
+	// 由本库自己生成的 styles.xml 则每次保存都根据样式管理器重新生成，
+	// 否则首次保存之后通过样式API添加/修改/删除的样式不会被写入。
+	if existing, ok := d.parts["word/styles.xml"]; ok && len(existing) > 0 && !d.stylesGenerated {
 		Debugf("检测到已有 styles.xml，跳过样式重建以保留模板默认样式")
 		return nil
 	}
@@ -3042,6 +3046,7 @@ func (d *Document) serializeStyles() error {
 
 	// 添加XML声明
 	d.parts["word/styles.xml"] = append([]byte(xml.Header), data...)
+	d.stylesGenerated = true
 
 	Debugf("样式序列化完成")
 	return nil
